@@ -52,6 +52,7 @@ const (
 	c11Send1    c11Action = iota // one datagram if CanSend && HasPacingBudget(now)
 	c11Burst                     // up to c11BurstCap datagrams while allowed, at the same instant
 	c11Drain                     // datagrams while allowed, at the same instant, no cap (safety cap c11DrainCap)
+	c11Pace                      // the steady-state loop: c11PaceN x (sleep until announced; one datagram if allowed)
 	c11Sleep                     // sleep until the time TimeUntilSend announces
 	c11Sleep1                    // ... and wake 1ns late
 	c11Idle1                     // idle 1s
@@ -67,7 +68,7 @@ const (
 )
 
 var c11ActionNames = [c11NActions]string{
-	"send1", "burst16", "drain", "sleep", "sleep+1ns", "idle1s", "idle10s", "nextsec",
+	"send1", "burst16", "drain", "pace16", "sleep", "sleep+1ns", "idle1s", "idle10s", "nextsec",
 	"ack(49,0)", "ack(50,0)", "ack(40,10)", "ack(39,11)", "ack(10,40)", "ack(0,50)",
 }
 
@@ -77,6 +78,7 @@ var c11Batches = [c11NActions][2]int{
 
 const (
 	c11BurstCap = 16    // > maxBurstPackets(10)+1: an over-long burst is visible
+	c11PaceN    = 16    // a pacing bandwidth more than 1/16 above rate/0.8 shows after one drain + one pace16
 	c11DrainCap = 40000 // above the largest possible legal burst (25 MB / 1200 B = 20834 datagrams)
 	// the virtual clock starts where quic-go's monotime starts (process start is "one hour ago"), 1ms
 	// before a whole-second boundary so that short pacing sleeps cross a slot boundary
@@ -87,7 +89,7 @@ const (
 var (
 	c11AlphaSeq = []c11Action{c11Send1, c11Burst, c11Sleep, c11Sleep1, c11Idle1, c11Idle10, c11NextSec,
 		c11Ack49_0, c11Ack50_0, c11Ack40_10, c11Ack39_11, c11Ack10_40, c11Ack0_50}
-	c11AlphaDrain = []c11Action{c11Send1, c11Drain, c11Sleep, c11Sleep1, c11Idle1, c11Idle10, c11NextSec,
+	c11AlphaDrain = []c11Action{c11Send1, c11Drain, c11Pace, c11Sleep, c11Sleep1, c11Idle1, c11Idle10, c11NextSec,
 		c11Ack49_0, c11Ack50_0, c11Ack40_10, c11Ack39_11, c11Ack10_40, c11Ack0_50}
 )
 
@@ -364,6 +366,28 @@ func (s *c11Sim) step(a c11Action) (eff, disabled bool, v *c11Viol) {
 			return true, false, v
 		}
 		return true, false, s.checkState()
+	case c11Pace:
+		for i := 0; i < c11PaceN; i++ {
+			if t := int64(s.bs.TimeUntilSend(s.inflight)); t > s.now {
+				if !s.gapOK(t) {
+					break
+				}
+				s.now = t
+				eff = true
+			}
+			if !s.allowed() { // window-limited (pacing-limited here is clause 4, reported by checkState)
+				break
+			}
+			s.sendOne()
+			eff = true
+			if v = s.checkRate(); v != nil {
+				return true, false, v
+			}
+			if v = s.checkState(); v != nil {
+				return true, false, v
+			}
+		}
+		return eff, false, s.checkState()
 	case c11Sleep, c11Sleep1:
 		t := int64(s.bs.TimeUntilSend(s.inflight))
 		if t <= s.now { // zero = "send immediately", or already due: the timer fires at once
@@ -602,7 +626,7 @@ func c11Enumerate(sh *evidence.Shard) {
 		p.Alphabet = map[string]any{
 			"rate_Bps": c11Rates, "datagram": c11Sizes, "smoothed_rtt": []string{"0(none)", "1ms", "50ms", "300ms"}, "loss_compensation": []string{"on", "off"},
 			"actions": names,
-			"action_semantics": "send1: one datagram if CanSend&&HasPacingBudget(now); burst16/drain: datagrams while allowed at one instant (cap 16 / none); sleep: now=TimeUntilSend() if later; sleep+1ns: one ns late; idle1s/idle10s; nextsec: next whole-second boundary; ack(n,m): OnCongestionEventEx with n acked, m lost (in flight reduced by n+m datagrams)",
+			"action_semantics": "send1: one datagram if CanSend&&HasPacingBudget(now); burst16/drain: datagrams while allowed at one instant (cap 16 / none); pace16: 16 x (sleep until announced, then one datagram if allowed); sleep: now=TimeUntilSend() if later; sleep+1ns: one ns late; idle1s/idle10s; nextsec: next whole-second boundary; ack(n,m): OnCongestionEventEx with n acked, m lost (in flight reduced by n+m datagrams)",
 			"clock_start_ns":   c11Start,
 		}
 		p.Bounds = map[string]any{"max_sequence_length": pc.depth, "grid_points": len(c11Rates) * len(c11Sizes) * len(c11RTTs) * len(c11Comp),
